@@ -190,6 +190,9 @@ def run_invariants(ctx: Ctx):
             for name, flag in zip(bad, parts[2]):
                 if flag != "T":
                     bad[name] += 1
+            if len(parts[2]) > 5:      # useSafe: the fresh run stays inside the model's fuels (C16d_history_independent_partial; the model's domain of fidelity)
+                key = {"T": "fuel_safe_true", "F": "fuel_safe_false"}.get(parts[2][5], "fuel_safe_not_applicable")
+                ctx.stats[key] = ctx.stats.get(key, 0) + 1
             if len(parts[2]) > 4:      # the certificate of C03w_certificate_sound on the last store (sufficient for marked constraints to hold with wildcards)
                 key = "wildcard_certificate_true" if parts[2][4] == "T" else "wildcard_certificate_false"
                 ctx.stats[key] = ctx.stats.get(key, 0) + 1
